@@ -53,6 +53,7 @@ type G struct {
 	opStamp uint64 // stamp taken when it entered its last blocking operation
 	inOp    string // site of the blocking operation it entered last (Pre), cleared by Post
 	nchild  int
+	born    uint64 // value of the global stamp when the goroutine was spawned
 
 	// lock waiting
 	waitLock *lockModel
@@ -345,7 +346,7 @@ func GoSpawn(site string) *Spawn {
 	s.control(p, site)
 	s.mu.Lock()
 	p.nchild++
-	g := &G{Name: fmt.Sprintf("%s/%s#%d", p.Name, site, p.nchild), wake: make(chan struct{}), state: gRunning}
+	g := &G{Name: fmt.Sprintf("%s/%s#%d", p.Name, site, p.nchild), wake: make(chan struct{}), state: gRunning, born: s.stamp.Load()}
 	s.assignPrio(g)
 	s.all = append(s.all, g)
 	s.mu.Unlock()
@@ -983,6 +984,21 @@ func (s *Sim) Live(filter string) []string {
 	var out []string
 	for _, g := range s.all {
 		if !g.Client && g.state != gDone && strings.Contains(g.Name, filter) {
+			out = append(out, g.Name+"@"+g.where())
+		}
+	}
+	sort.Strings(out)
+	return out
+}
+
+// LiveBornBefore is Live restricted to goroutines that kit code spawned before the given stamp (a
+// value of Stamp() the harness took earlier): "everything that was started before I called Close".
+func (s *Sim) LiveBornBefore(filter string, stamp uint64) []string {
+	s.mu.Lock()
+	defer s.mu.Unlock()
+	var out []string
+	for _, g := range s.all {
+		if !g.Client && g.state != gDone && g.born < stamp && strings.Contains(g.Name, filter) {
 			out = append(out, g.Name+"@"+g.where())
 		}
 	}
